@@ -198,13 +198,18 @@ impl Backend {
                     .with_lint_config(lint_config.clone()),
                 language_id: language_id.map(|v| v.to_string()),
                 dict: dict.clone(),
+                base_dict: dict.clone(),
                 url: url.clone(),
                 ..Default::default()
             }
         });
 
-        if doc_state.dict != dict {
+        // `doc_state.dict` may contain the identifiers of the document: compare what was loaded from
+        // the dictionary files with what was loaded last time, and merge the identifiers again afterwards.
+        if doc_state.base_dict != dict {
+            doc_state.base_dict = dict.clone();
             doc_state.dict = dict.clone();
+            doc_state.ident_dict = Default::default();
             info!("Constructing new linter because of modified dictionary.");
             doc_state.linter =
                 LintGroup::new_curated(dict.clone(), dialect).with_lint_config(lint_config.clone());
